@@ -42,18 +42,20 @@ PROPS = {
          'Theorems: after the poll that sees the flag down no further node is entered (hook counter = 0 for every stop index), at most N+1 polls; the answer is the best move of the last completed iteration, or the first checked move when none completed; and (ScoreRange2.v, bounded material, every table a session can produce) a stop at ANY poll index yields a move whenever a legal move exists (C07_answers_when_stopped). The run stops the real search at poll indices 0..39 and a geometric sample up to 10000, with fresh tables and with the root cached exact.',
          'wall-clock promptness is measured, not proved (thread wake-up, OS scheduling); the always-answers theorem assumes bounded material.'),
  "C08": ("proof",
-         "Theorems: iteration depths consecutive from the starting depth, none beyond max(limit, cached depth) or 255; with a deeper exact root entry exactly one (table-hit) iteration; the model's recursion "
-         "never runs out of fuel on any board (quiescence terminates: a potential of at most 128 decreases with every tactical move); killer index in range. The run searches with limits below / at / above "
-         "cached depths and runs unlimited searches of tiny positions in the release and the overflow-checked build.",
-         ""),
+         "Theorems: iteration depths consecutive from the starting depth, none beyond max(limit, cached depth) or 255; with a deeper exact root entry exactly one (table-hit) iteration; the model's recursion never runs out of fuel on any board (quiescence terminates: a potential of at most 128 decreases with every tactical move); killer index in range; and (NoOverflow.v, over a second model in which every i16/u8/u32 operation of search.rs is checked) no arithmetic of the search can overflow for bounded material and every table a session can produce - so a build with overflow checks cannot panic there and a build without computes what the model says. The run searches with limits below / at / above cached depths (including roots cached only as a bound), the longest accepted games followed by unlimited searches, and tiny positions without limit, in the release and the overflow-checked build.",
+         'the no-overflow theorem assumes bounded material (true of the initial array, preserved by every move).'),
  "C09": ("proof",
          "Theorems (Proofs/AlphaBeta*.v): move ordering is a permutation; quiescence, the depth-1 specialisation and the full PVS node (null-window probe and re-search included) are bound-consistent with the exhaustive reference for every window, ordering, killer and history state; the table-less root returns exactly the reference value on trees without a blocked node whose king-capture interval is a point (root_exact_iv). Counterexamples machine-checked for the excluded tree classes. The run (a) compares the real code's table-less root score with the extracted reference at depth 1-3(4) and (b) calls the three search functions directly (hook entry points) with about 150 windows per position placed around the node's exhaustive value: same result as the extracted model, and inside the proved bound-consistency relation.",
          'scores beyond +-9000 (mate / king capture) are compared after clamping, as the property allows; trees with a blocked node are skipped and counted.'),
  "C10": ("proof",
-         "Theorem C10_dead_root (a root without legal moves is answered with no move, for every table/limit/stop). The mate-finding half is decided by the correspondence run against the independent solver "
-         "Rules.forced_mate_in (mate in one at depth 3, 4 and unlimited; forced mate in two at depth 5 and 6; self-termination on the mate) - a theorem for it would need value-exactness with the table on, "
-         "which does not hold ply-for-ply (mate scores are ply-relative); this part is therefore exploration-level and said so.",
-         "mate-finding half: exploration with an independent oracle, not a theorem."),
+         "Theorems (Proofs/MateOne.v): from a fresh table, in every game reached by legal play with bounded material in which some legal move gives checkmate, a search that is not stopped and has no limit or a limit >= 3 announces a "
+         "mating move (C10_mate_in_one_found) and stops by itself - only-move shortcut at depth 1, or iterations 1,2,3 with the third scoring 32667 (C10_mate_in_one_stops) - under an explicit, computable no-collision "
+         "condition on 64-bit hashes (a mated child's hash differs from the root's and from every non-mated child's). The root's repetition filter never removes a mating move in such a game (C10_filter_keeps_mates). "
+         "C10_dead_root: a root without legal moves is answered with no move, for every table/limit/stop. Proving the mate-in-one half exposed a genuine defect (the filter fired on records that repeat nothing and removed "
+         "the only mating move - two records, one found by the proof's author; fix a0a0e3f). The mate-in-two half is decided by the correspondence run against the independent solver Rules.forced_mate_in (forced mate in two "
+         "at depth 5 and 6, fresh table; at the end of game records a m b n a on which the filter fires; inside sessions of the real binary after a timed go that ended early); known finding C10-K1 (a quiet key of a mate "
+         "in two is filtered when the record repeats) is replayed on every run.",
+         "mate-in-two half: exploration with an independent oracle, not a theorem (a theorem is being attempted in Proofs/MateTwo.v). Known finding C10-K1 is listed in known_findings.json."),
  "C11": ("proof",
          'Theorems: fields 1-4 of the exported text = FenSpec.render (abs g) and six well-formed fields, in every reachable game; re-import succeeds with the same position and the same hash, unconditionally for every game reached by legal play; parse (render p) = p. The run also re-imports the exported text on the real code (same fields, hash and legal moves), including games of 300 and 396 plies and scripted en-passant / promotion-capture games.',
          ''),
@@ -66,15 +68,10 @@ PROPS = {
          "exactly for clocks below 7550 ms without increment; a lower clock never yields a larger budget. The run compares the binary's `info time` with the extracted model on boundary and random tuples.",
          "that bestmove is printed within the budget depends on thread wake-up and search unwinding: measured with a 2 s margin, not proved."),
  "C14": ("proof",
-         "Theorems about the labelled transition system Model/Sched.v (one transition per shared-memory action of uci.rs; every command sequence, every interleaving, unboundedly many go's) by an inductive "
-         "invariant: at most one bestmove per go and exactly one once its thread is done; a flag is down forever once its timer fired or stop was handled, and is only raised before the timer exists; after "
-         "the bestmove of the current go the next position/go/show/ucinewgame is not refused; the game is kept while a search thread needs it; no panic; no deadlock; isready answered without the lock; quit exits. "
-         "The run drives the real binary with random sessions and stretched schedule points; every observed session must be a trace of the proved model (breadth-first search over its schedules).",
-         "liveness under fairness and the real scheduler are outside a transition system without clock; search progress is abstracted (any search may end by itself)."),
+         "Theorems about the labelled transition system Model/Sched.v (one transition per shared-memory action of uci.rs; every command sequence, every interleaving, unboundedly many go's). Safety by an inductive invariant: at most one bestmove per go and exactly one once its thread is done; a flag is down forever once its timer fired or stop was handled, and is only raised before the timer exists; after the bestmove of the current go the next position/go/show/ucinewgame is not refused; the game is kept while a search thread needs it; no panic; no deadlock; isready answered without the lock; quit exits. Progress (SchedLive.v) by a measure that every engine-side step decreases: no livelock; after stop, and after every accepted go, EVERY maximal continuation prints the bestmove and returns to idle; a position/go pair after a bestmove always starts a new search; the stdin thread can only wait for a search whose flag is already down, except in the wait command. The run drives the real binary with random sessions and stretched schedule points; every observed session must be a trace of the proved model (breadth-first search over its schedules), and an unlimited search must stay silent until stop.",
+         'fairness and the real scheduler are outside a transition system without clock; search progress is abstracted (any search may end by itself).'),
  "C15": ("proof",
-         "Theorems: piece/square/state/history indices in range; every square stored in a generated move is valid; the unsafe pawn-push constructors are only used where valid; every tactical move lowers a "
-         "potential <= 128, so quiescence nests at most that deep; state stack: 400 + 256 + 128 + 1 <= 1024 over the regenerated constants and every game reached by a search stays below the capacity; the "
-         "move list fits the buffer by construction and, for bounded material, is not truncated. The run executes corpus games, dense positions and 399-state games with deep searches in the checked build.",
+         'Theorems: piece/square/state/history indices in range; every square stored in a generated move is valid; the unsafe pawn-push constructors are only used where valid; every tactical move lowers a potential <= 128, so quiescence nests at most that deep; state stack: guard + 256 + 128 + 1 <= capacity over the regenerated constants (position command and self-play) and every game reached by a search stays below the capacity; the position command never leaves a game at or above the guard and self-play never searches one; the move list fits the buffer by construction and, for bounded material, is not truncated. The run executes corpus games, dense positions (also pawns on the first and last ranks) and the longest accepted games with deep searches in the checked build.',
          "the general bound 'no reachable position has more than 256 pseudo-legal moves' is open (C15_moves_fit_partial covers material with 27Q+14R+13B+8N+12P+10 <= 256)."),
  "C16": ("proof",
          "Theorems: in every reachable game and after every import the score is wrap16 of EvalSpec.eval with one king table for both kings; equal to the sum whenever the sum fits an i16; the colour-mirrored "
